@@ -4,5 +4,6 @@ CONSTANTS Cbs = {0}
   SlotSize = 56
   Gap = 1048576
   Sigs = {"i"}
+  Cap = 0
   Variant = "faithful"
 CHECK_DEADLOCK FALSE
